@@ -37,16 +37,16 @@ const (
 
 // Program is the loaded, type-checked repository in SSA form.
 type Program struct {
-	Repo      string
-	Fset      *token.FileSet
-	Pkgs      []*packages.Package // all repository packages (module-local)
-	AllPkgs   map[string]*packages.Package
-	SSA       *ssa.Program
-	SSAPkgs   map[string]*ssa.Package
-	cg        *callgraph.Graph
-	allFuncs  map[*ssa.Function]bool
-	GOARCH    string
-	execNames map[*ssa.Function]string
+	Repo          string
+	Fset          *token.FileSet
+	Pkgs          []*packages.Package // all repository packages (module-local)
+	AllPkgs       map[string]*packages.Package
+	SSA           *ssa.Program
+	SSAPkgs       map[string]*ssa.Package
+	cg            *callgraph.Graph
+	allFuncs      map[*ssa.Function]bool
+	GOARCH        string
+	execNames     map[*ssa.Function]string
 	dispatcherFns map[*ssa.Function]bool
 }
 
